@@ -140,7 +140,7 @@ def _task(idx):
     os.unlink(path)
     os.rmdir(d)
     res = {"i": idx, "events": attempts, "counters": {f"prefix_load_attempts:{fam}": attempts, "shared_memory_load_attempts": shared_attempts},
-           "sig": f"{ci}:{lo}", "nontrivial": True, "digest": f"{ci}:{lo}:{hi}:{viol is None}",
+           "sig": f"t{ci}:{lo}", "nontrivial": False, "digest": f"{ci}:{lo}:{hi}:{viol is None}",
            "extra_nontrivial": [f"{ci}:{o}" for o in range(max(lo, 1), hi)]}
     if lo == 0:
         # the complete file must load to the saved sketch through every route
@@ -246,6 +246,7 @@ def run_check(prop, tier, seed, args):
         print("HARNESS-ERROR", agg.harness_errors[0]["harness_error"], file=sys.stderr)
         return 2
     rc = 0
+    agg.dump_digests(getattr(args, "digests", None))
     seen = set()
     for r in agg.violations:
         v = r["violation"]
